@@ -151,6 +151,7 @@ pub fn run_norm(args: &Args) -> (u64, u64) {
         }
         set_noisy(true);
         // lengths around every power of 256 (and 2^15, 2^16 +- a few): always too long, whatever a narrower counter makes of it
+        // (lengths of 2^16 + 1 .. 2^16 + 16 were tried and dropped: TLC's trace validation does not get through events of that size)
         for n in [17usize, 255, 256, 257, 258, 271, 272, 273, 511, 512, 513, 528, 1025, 4097] {
             edge.push("a".repeat(n));
             if n < 70000 {
